@@ -36,7 +36,7 @@ theorem foldEdges_ntombs (es : List Edge) :
   | cons e t ih => intro r; simp only [List.foldl_cons]; rw [ih]
 
 /-- a day's synchronisation stores no deletion record that neither side held -/
-theorem syncDay_ntombs_mem {d : Defects} (hK : d.deletionBatchKeyedById = false) (rights : Rights)
+theorem syncDay_ntombs_mem {d : Defects} (rights : Rights)
     (dst src : Replica) (room ent day : Nat) (x : NTomb)
     (h : x ∈ (syncDay d rights dst src room ent day).dst.ntombs) : x ∈ dst.ntombs ∨ x ∈ src.ntombs := by
   unfold syncDay at h
@@ -58,10 +58,12 @@ theorem syncDay_ntombs_mem {d : Defects} (hK : d.deletionBatchKeyedById = false)
     split at hy
     · exact Or.inl (t1 ▸ hy)
     · unfold applyNTombs at hy
-      simp only [hK, Bool.false_eq_true, ↓reduceIte] at hy
       rcases foldTombs_mem _ _ y hy with e | e
       · exact Or.inl (t1 ▸ e)
-      · exact Or.inr (hsrc y (List.mem_filter.mp e).1)
+      · have e' := (List.mem_filter.mp e).1
+        split at e'
+        · exact Or.inr (hsrc y (mem_dedupById e'))
+        · exact Or.inr (hsrc y e')
   generalize (if nts.isEmpty then dst1 else applyNTombs d rights dst1 nts) = dst2 at h t2
   split at h
   · exact t2 x h
@@ -70,36 +72,43 @@ theorem syncDay_ntombs_mem {d : Defects} (hK : d.deletionBatchKeyedById = false)
     exact t2 x h
 
 section pull
-variable {d : Defects} (hI : d.ingestIgnoresTombstones = false) (hR : d.syncDeletionRoomScoped = false)
-  (hK : d.deletionBatchKeyedById = false) (hE : d.edgesOnlyForFetchedRows = false)
+variable {d : Defects} {f : Nat → Nat} (hI : d.ingestIgnoresTombstones = false)
 
 /-- the join with the source's rows and records of a list of `(entity, day)` of the room, one after the other -/
 def joinDays (src : Replica) (room : Nat) (l : List (Nat × Nat)) (a : ARep) : ARep :=
   l.foldl (fun a x => join a (abs (slice src room x.1 x.2))) a
 
-include hI hR hK hE in
+include hI in
 theorem syncDays_refines {rights : Rights} (hA : AllRights rights) {src : Replica}
+    (hK : d.deletionBatchKeyedById = false ∨ DayRecordsDistinct src)
     (hzs : NoZombie src) (hns : IdsNodup src) (room : Nat) (l : List (Nat × Nat)) :
-    ∀ (dst : Replica) (ch : Bool) (f : Nat), NoZombie dst → PkFun (fun x => x ∈ dst.ntombs ∨ x ∈ src.ntombs) →
-      abs (syncDays d rights src room l dst ch f).1 = joinDays src room l (abs dst) := by
+    ∀ (dst : Replica) (ch : Bool) (k : Nat), NoZombie dst →
+      (d.syncDeletionRoomScoped = false ∨ (RoomFn f dst ∧ RoomFn f src)) →
+      PkFun (fun x => x ∈ dst.ntombs ∨ x ∈ src.ntombs) →
+      abs (syncDays d rights src room l dst ch k).1 = joinDays src room l (abs dst) := by
   induction l with
-  | nil => intro dst ch f _ _; rfl
+  | nil => intro dst ch k _ _ _; rfl
   | cons a t ih =>
-    intro dst ch f hzd hpk
+    intro dst ch k hzd hR hpk
     obtain ⟨ent, day⟩ := a
     simp only [syncDays, joinDays, List.foldl_cons]
-    have h1 := syncDay_refines hI hR hK hE hA hzd hzs hns hpk room ent day
-    have hz' := (syncDay_noZombie hI hR rights src hzd room ent day).1
+    have h1 := syncDay_refines hI hA hR hK hzd hzs hns hpk room ent day
+    have hz' : NoZombie (syncDay d rights dst src room ent day).dst ∧
+        (d.syncDeletionRoomScoped = false ∨ (RoomFn f (syncDay d rights dst src room ent day).dst ∧ RoomFn f src)) := by
+      rcases hR with hR | ⟨hd, hs⟩
+      · exact ⟨(syncDay_noZombie hI hR rights src hzd room ent day).1, Or.inl hR⟩
+      · have hr := syncDay_roomFn d rights hd hs room ent day
+        exact ⟨hr.noZombie (syncDay_noZombieR hI rights src hzd.toR room ent day).1, Or.inr ⟨hr, hs⟩⟩
     have hpk' : PkFun (fun x => x ∈ (syncDay d rights dst src room ent day).dst.ntombs ∨ x ∈ src.ntombs) := by
       intro x y hx hy hp
       refine hpk x y ?_ ?_ hp
       · rcases hx with hx | hx
-        · exact syncDay_ntombs_mem hK rights dst src room ent day x hx
+        · exact syncDay_ntombs_mem rights dst src room ent day x hx
         · exact Or.inr hx
       · rcases hy with hy | hy
-        · exact syncDay_ntombs_mem hK rights dst src room ent day y hy
+        · exact syncDay_ntombs_mem rights dst src room ent day y hy
         · exact Or.inr hy
-    rw [ih _ _ _ hz' hpk', h1]
+    rw [ih _ _ _ hz'.1 hz'.2 hpk', h1]
     rfl
 
 /-- the days a pull looks at: those of the source's log whose daily hash the puller's log does not show -/
@@ -109,17 +118,19 @@ def diffDays (dst src : Replica) (room : Nat) : List (Nat × Nat) :=
     | some l => l.daily != x.row.daily
     | none => true).map fun x => (x.ent, x.row.day)
 
-include hI hR hK hE in
+include hI in
 /-- **refinement, one pull.** With the whole history compared (`summaryFirstEntityOnly` off) the rows and node
     deletion records after `synchronise_room` are those before, joined with the source's rows and records of every
     day whose daily hash differs — whatever the two logs hold. -/
 theorem pull_refines_days (hS : d.summaryFirstEntityOnly = false) {rights : Rights} (hA : AllRights rights)
-    {dst src : Replica} (hzd : NoZombie dst) (hzs : NoZombie src) (hns : IdsNodup src)
+    {dst src : Replica} (hR : d.syncDeletionRoomScoped = false ∨ (RoomFn f dst ∧ RoomFn f src))
+    (hK : d.deletionBatchKeyedById = false ∨ DayRecordsDistinct src)
+    (hzd : NoZombie dst) (hzs : NoZombie src) (hns : IdsNodup src)
     (hpk : PkFun (fun x => x ∈ dst.ntombs ∨ x ∈ src.ntombs)) (room : Nat) :
     abs (pull d rights dst src room).dst = joinDays src room (diffDays dst src room) (abs dst) := by
   unfold pull
   simp only [hS, Bool.not_false, Bool.true_or, ↓reduceIte]
-  have h := syncDays_refines hI hR hK hE hA hzs hns room (diffDays dst src room) dst false 0 hzd hpk
+  have h := syncDays_refines hI hA hK hzs hns room (diffDays dst src room) dst false 0 hzd hR hpk
   unfold diffDays at h ⊢
   rw [← h]
   split
